@@ -37,6 +37,8 @@ type LoadOpts struct {
 	Whole   bool   // LoadAllSyntax (thorough)
 	Tags    string // build tags
 	Overlay map[string][]byte
+	// Baseline: path of the baseline symbol inventory used to re-bind anchors after renames ("" = none)
+	Baseline string
 }
 
 func Load(o LoadOpts) (*Prog, error) {
@@ -109,6 +111,9 @@ func Load(o LoadOpts) (*Prog, error) {
 		}
 		return a.String() < b.String()
 	})
+	if o.Baseline != "" {
+		p.LoadBaseline(o.Baseline)
+	}
 	return p, nil
 }
 
@@ -176,6 +181,9 @@ func (p *Prog) funcIn(tp *types.Package, recv, name string) *ssa.Function {
 	if tp == nil {
 		return nil
 	}
+	if f, ok := oldToRenamed[tp.Path()+"|"+recv+"|"+name]; ok {
+		return f
+	}
 	if recv == "" {
 		o, _ := tp.Scope().Lookup(name).(*types.Func)
 		if o == nil {
@@ -206,6 +214,14 @@ func (p *Prog) FuncName(fn *ssa.Function) string {
 		return "<nil>"
 	}
 	s := fn.String()
+	if old, ok := renamedToOld[Outer(fn)]; ok {
+		// keep the name the rules and owner tables know (the re-binding is listed in the evidence)
+		o := Outer(fn)
+		full := o.String()
+		if i := strings.LastIndex(full, o.Name()); i >= 0 {
+			s = full[:i] + old + full[i+len(o.Name()):] + strings.TrimPrefix(s, full)
+		}
+	}
 	s = strings.ReplaceAll(s, ModPath+"/", "")
 	s = strings.ReplaceAll(s, ModPath, "")
 	return s
